@@ -45,7 +45,7 @@ import (
 	"honnef.co/go/tools/internal/verifx/vx"
 )
 
-const c10Rule = "variant = base package x {//lint:ignore, //lint:file-ignore} x placement (own line above every declaration/field/statement/case/continuation line; file top) x check list (length 1..2, both orders, over hit id, 2nd id on the line, missing id, wrong-case id, SA*, S*, *, U1000, disabled id) x {reason, none}, plus group-position variants (directive as last/middle/first line of a 2-3 line comment group, inside a doc comment, after a licence header; names {hit, miss, U1000, hit without reason}; with and without an unrelated stand-alone directive at the end of the file), plus two-directive variants (a line directive over {hit, miss, SA*, U1000} at every placement with a problem x a second directive: file-ignore at file top of the same/another check, or a line directive stacked above/below naming the same check/another check/*, or stacked without a reason), each x {-show-ignored, not}; non-trivial = the real binary suppressed >= 1 base problem or reported the directive itself"
+const c10Rule = "variant = base package x {//lint:ignore, //lint:file-ignore} x placement (own line above every declaration/field/statement/case/continuation line; file top) x check list (length 1..2, both orders, over hit id, 2nd id on the line, missing id, wrong-case id, SA*, S*, *, U1000, disabled id) x {reason, none}, plus glob-syntax names (character class, range, negated class, ?, backslash escape, wrong case, malformed pattern; hitting and not; alone and listed with an exact hitting / missing id; line and file directives, U1000), plus group-position variants (directive as last/middle/first line of a 2-3 line comment group, inside a doc comment, after a licence header; names {hit, miss, U1000, hit without reason}; with and without an unrelated stand-alone directive at the end of the file), plus two-directive variants (a line directive over {hit, miss, SA*, U1000} at every placement with a problem x a second directive: file-ignore at file top of the same/another check, or a line directive stacked above/below naming the same check/another check/*, or stacked without a reason), each x {-show-ignored, not}; non-trivial = the real binary suppressed >= 1 base problem or reported the directive itself"
 
 func (b *c10Base) prepare() {
 	if b.dirLines != nil {
@@ -469,6 +469,69 @@ func c10EnumerateGroups(b *c10Base, ref []c10Prob, full bool) []c10Variant {
 	return out
 }
 
+// c10PatternNames: the rest of the glob syntax, derived from the id that hits at a placement
+// (all ids end in a digit other than 5 and 9). hit: must match the id; miss: must not.
+func c10PatternNames(hit string) (hits, misses []string, malformed string) {
+	pre, last := hit[:len(hit)-1], hit[len(hit)-1:]
+	hits = []string{
+		pre + "[" + last + "9]",                  // character class
+		pre + "[0-9]",                            // range
+		pre + "[^9]",                             // negated class
+		pre + "?",                                // any single character
+		pre + "\\" + last,                        // backslash escape of an ordinary character
+		strings.ToLower(pre) + "[" + last + "9]", // class, wrong case
+	}
+	misses = []string{
+		pre + "[59]",
+		pre + "[a-c]",
+		pre + "[^" + last + "]",
+		hit + "?",
+		pre + "\\*", // a literal star
+	}
+	return hits, misses, hit[:len(hit)-2] + "[" // unterminated class: ErrBadPattern
+}
+
+// c10EnumeratePatterns lists the variants whose check list uses character classes, ranges,
+// negated classes, '?', backslash escapes, wrong case and a malformed pattern, each hitting / not
+// hitting the problem of the line, alone and in a comma list with an exact name (hitting and
+// not), for line directives and for a file directive at the file top; placements whose hitting id
+// is U1000 exercise the unused path. quick: the first three placements with a problem plus the
+// first U1000 placement of every base; thorough: every placement with a problem.
+func c10EnumeratePatterns(b *c10Base, ref []c10Prob, full bool) []c10Variant {
+	b.prepare()
+	var out []c10Variant
+	add := func(kind string, place int, hit, miss string) {
+		hs, ms, bad := c10PatternNames(hit)
+		for _, p := range append(append(hs, ms...), bad) {
+			out = append(out, c10Variant{Base: b.Name, Kind: kind, Place: place, Names: []string{p}, Reason: true})
+			out = append(out, c10Variant{Base: b.Name, Kind: kind, Place: place, Names: []string{p, hit}, Reason: true})
+			out = append(out, c10Variant{Base: b.Name, Kind: kind, Place: place, Names: []string{p, miss}, Reason: true})
+		}
+	}
+	top := c10NameSet(b, ref, 0)
+	add("file-ignore", 0, top[0], top[1])
+	add("file-ignore", 0, "U1000", top[1])
+	n, u := 0, false
+	for _, place := range b.places {
+		onLine := false
+		for _, p := range ref {
+			onLine = onLine || (p.Role == "d" && p.Line == place)
+		}
+		if !onLine {
+			continue
+		}
+		names := c10NameSet(b, ref, place)
+		isU := names[0] == "U1000"
+		if !full && !(n < 3 || (isU && !u)) {
+			continue
+		}
+		n++
+		u = u || isU
+		add("ignore", place, names[0], names[1])
+	}
+	return out
+}
+
 // ---------------------------------------------------------------------------------------------
 // evaluation
 
@@ -504,6 +567,7 @@ type c10Eval struct {
 	debatable                                map[string]int
 	raw                                      map[string]string
 	extraPairs                               int
+	malformedPat                             int
 }
 
 func c10Class(e c10Expect, v c10Variant, missing, extra []string) string {
@@ -722,6 +786,9 @@ func (ev *c10Eval) evalPkg(mode string, slots []c10Variant, real [2][][]c10Prob,
 						ev.noReasonUnmatched++
 					}
 				}
+			}
+			if !show && len(v.Names) > 0 && strings.HasSuffix(v.Names[0], "[") {
+				ev.malformedPat++
 			}
 			if !show && e.CatDiffers > 0 {
 				ev.catDiffer++
@@ -1018,13 +1085,18 @@ func TestVerifC10(t *testing.T) {
 		}
 		return true
 	}
-	var singles, pairs, controls, trailing, twosA, twosRest, groupsA, groupsRest []c10Variant
+	var singles, pairs, controls, trailing, twosA, twosRest, groupsA, groupsRest, patsA, patsRest []c10Variant
 	total := 0
 	for _, b := range c10Bases {
 		if tw := c10EnumerateTwo(b, ev.refs[b.Name]); b.Name == "A" {
 			twosA = tw
 		} else {
 			twosRest = append(twosRest, tw...)
+		}
+		if pa := c10EnumeratePatterns(b, ev.refs[b.Name], vx.Thorough()); b.Name == "A" {
+			patsA = pa
+		} else {
+			patsRest = append(patsRest, pa...)
 		}
 		if gr := c10EnumerateGroups(b, ev.refs[b.Name], vx.Thorough()); b.Name == "A" {
 			groupsA = gr
@@ -1060,8 +1132,10 @@ func TestVerifC10(t *testing.T) {
 	}
 	gHead, gTail := head(groupsA, 128)
 	tHead, tTail := head(twosA, 128)
-	first := append([]c10Variant(nil), gHead...)
-	for _, l := range [][]c10Variant{tHead, singles, controls, trailing, gTail, tTail, groupsRest, twosRest} {
+	pHead, pTail := head(patsA, 128)
+	first := append([]c10Variant(nil), pHead...)
+	res.Count("variants_glob_syntax", int64(len(patsA)+len(patsRest)))
+	for _, l := range [][]c10Variant{gHead, tHead, singles, controls, trailing, pTail, gTail, tTail, patsRest, groupsRest, twosRest} {
 		first = append(first, l...)
 	}
 	res.Count("variants_group_position_or_other_directive", int64(len(groupsA)+len(groupsRest)))
@@ -1094,6 +1168,11 @@ func TestVerifC10(t *testing.T) {
 		switch {
 		case v.Kind == "trailing":
 			continue
+		case strings.ContainsAny(strings.Join(v.Names, ","), "[?\\"):
+			// glob-syntax names: isolated only alone, at base A's unused function
+			if v.Base != "A" || len(v.Names) != 1 || v.Kind != "ignore" || v.Place != b.places[len(b.places)-2] {
+				continue
+			}
 		case v.Group != "" || v.Extra:
 			// group positions: base A, hitting id, no other directive, last line and first line of the group
 			if v.Base != "A" || v.Extra || !v.Reason || v.Names[0] != c10NameSet(b, ev.refs[v.Base], v.Place)[0] || (v.Group != "last2" && v.Group != "first" && v.Group != "licence") {
@@ -1135,6 +1214,7 @@ func TestVerifC10(t *testing.T) {
 	res.Unassert(fmt.Sprintf("`S*` in a directive is matched as a plain glob (it also covers SA…/ST…), unlike `S*` in the checks option; the model follows the plain glob reading of the statement; the category reading would differ in %d evaluations", ev.catDiffer))
 	res.Unassert(fmt.Sprintf("wrong-case `u1000` on the line of an unused object (%d evaluations): either answer accepted, since the statement does not promise case-insensitive names; the binary suppressed in %d", ev.wrongCaseU, ev.wrongCaseU1000Hit))
 	res.Count("other_directive_pairs_compared", int64(ev.extraPairs))
+	res.Unassert(fmt.Sprintf("malformed glob in a check list (unterminated class, e.g. `SA40[`): the documentation does not say whether this is an error; modelled as on HEAD: the name matches nothing, is never an error, and the directive is judged by its other names (%d evaluations)", ev.malformedPat))
 	res.Unassert(fmt.Sprintf("line directive in the middle of / at the start of a multi-line comment group (the line after the directive is a comment, not code): accepted are 'attached to the statement below the group' and 'attached to nothing, hence reported as unmatched by the usual rules'; never silently dropped is asserted; observed (evaluations without -show-ignored): %v", ev.debatable))
 	res.Unassert(fmt.Sprintf("whether a directive without a reason is additionally reported as unmatched is not asserted (observed %d times)", ev.noReasonUnmatched))
 }
